@@ -43,6 +43,15 @@ CHECKS["C20"] = ("DESIGN.md C20",
     "called function, fault inside a user module) behind symbolic layout: error positions, stack "
     "trace entry and module name are checked the same way.")
 
+CHECKS["C14"] = ("DESIGN.md C14",
+    "Every token boundary of 56 seed programs gets a symbolic layout separator (length <= 2, "
+    "thorough 3: whitespace, CR, LF, # comment) and the real lexer's (type, value) sequence must "
+    "equal the canonical one for all of them; trailing layout and unterminated comments at end of "
+    "input; int literals as decimal/hex/HEX/binary/underscored numerals with symbolic digits must "
+    "evaluate to the value of the digits; strings single-quoted, double-quoted and \\xHH-escaped "
+    "with symbolic characters must lex to the same token; != vs <>, trailing semicolons and "
+    "redundant parentheses on 12 expression seeds evaluated over symbolic int operands.")
+
 NA = {}
 
 
